@@ -44,8 +44,9 @@ struct Family {
 
 struct FamilyModel : public AdditiveMeasurementModel {
     Family f; MatrixXd R, y; long n, m;
+    long m_report;   // the measurement size the model reports (harness switch for the second, mismatching, step)
     mutable long noise_calls = 0;
-    FamilyModel(const Family& f_, const MatrixXd& R_, const MatrixXd& y_, long n_, long m_) : f(f_), R(R_), y(y_), n(n_), m(m_) {}
+    FamilyModel(const Family& f_, const MatrixXd& R_, const MatrixXd& y_, long n_, long m_) : f(f_), R(R_), y(y_), n(n_), m(m_), m_report(m_) {}
     bool freeze(const Data&) override { return true; }
     std::pair<bool, Data> measure(const Data&) const override { return std::make_pair(true, Data(y)); }
     std::pair<bool, Data> predictedMeasure(const Ref<const MatrixXd>& cur_states) const override {
@@ -58,7 +59,7 @@ struct FamilyModel : public AdditiveMeasurementModel {
     }
     std::pair<bool, MatrixXd> getNoiseCovarianceMatrix() const override { noise_calls++; return std::make_pair(true, R); }
     VectorDescription getInputDescription() const override { return VectorDescription(n, 0, m); }
-    VectorDescription getMeasurementDescription() const override { return VectorDescription(m); }
+    VectorDescription getMeasurementDescription() const override { return VectorDescription(m_report); }
 };
 
 static void run_sukf(const std::string& pre, const vf::Case& c, const Family& fam, const MatrixXd& R, bool reduced,
@@ -67,7 +68,8 @@ static void run_sukf(const std::string& pre, const vf::Case& c, const Family& fa
     GaussianMixture pred_copy(pred);
     GaussianMixture corr(comps, n);
     corr.mean().setConstant(7.25); corr.covariance().setConstant(-3.5); corr.weight().setConstant(0.125);
-    SUKFCorrection sukf(std::unique_ptr<AdditiveMeasurementModel>(new FamilyModel(fam, R, c.mat("y"), n, m)), alpha, beta, kappa, s, reduced);
+    FamilyModel* mp = new FamilyModel(fam, R, c.mat("y"), n, m);   // owned by the SUKFCorrection below
+    SUKFCorrection sukf(std::unique_ptr<AdditiveMeasurementModel>(mp), alpha, beta, kappa, s, reduced);
     {
         vf::Entry e("SUKFCorrection::correct");
         sukf.freeze_measurements();
@@ -89,6 +91,19 @@ static void run_sukf(const std::string& pre, const vf::Case& c, const Family& fa
                                             && vf::bit_equal(pred.weight(), pred_copy.weight()) ? 1 : 0);
     vf::out_int(pre + "out_equals_pred", corr.components == pred.components && corr.dim == pred.dim && vf::bit_equal(corr.mean(), pred.mean())
                                              && vf::bit_equal(corr.covariance(), pred.covariance()) && vf::bit_equal(corr.weight(), pred.weight()) ? 1 : 0);
+    // second step on the SAME object with a measurement size that is not a multiple of s:
+    // output = input, and no likelihood may be reported (the first step's innovations must not survive)
+    if (s >= 2 && m % s == 0) {
+        mp->m_report = m + 1;
+        GaussianMixture corr2(comps, n);
+        corr2.mean().setConstant(7.25); corr2.covariance().setConstant(-3.5); corr2.weight().setConstant(0.125);
+        { vf::Entry e("SUKFCorrection::correct#2"); sukf.correct(pred, corr2); }
+        bool ok2; VectorXd lik2;
+        { vf::Entry e("SUKFCorrection::getLikelihood#2"); std::tie(ok2, lik2) = sukf.getLikelihood(); }
+        vf::out_int(pre + "2_lik_valid", ok2 ? 1 : 0);
+        vf::out_int(pre + "2_out_equals_pred", corr2.components == pred.components && corr2.dim == pred.dim && vf::bit_equal(corr2.mean(), pred.mean())
+                                                   && vf::bit_equal(corr2.covariance(), pred.covariance()) && vf::bit_equal(corr2.weight(), pred.weight()) ? 1 : 0);
+    }
 }
 
 int main() {
